@@ -839,7 +839,10 @@ impl Driver {
             let pos = items.iter().position(|it| !matches!(it, Item::Raw(..))).unwrap_or(items.len());
             items.insert(pos, Item::Raw(t, v));
         }
-        let mut bytes = obs::build(method, m.class, &id, &items);
+        // "as_indication": everything is built as for the error response, the class on the wire is
+        // indication (a challenge / error shaped indication)
+        let wire_class = if m.lt["as_indication"].as_bool().unwrap_or(false) { obs::CLASS_INDICATION } else { m.class };
+        let mut bytes = obs::build(method, wire_class, &id, &items);
         // ... or at byte level afterwards
         match hk {
             "fake_fp" => {
